@@ -23,7 +23,7 @@ for d in sorted(glob.glob('/verif/seeded/*/')):
         rules = sorted(set(re.findall(r'^  rule=(\S+)', out, re.M))) if pr.returncode == 1 else []
         if pr.returncode == 1: det[p] = rules
         if pr.returncode == 2: und.append(p)
-    subprocess.call(['git', '-C', '/repo', 'checkout', '--', '.'])
+    subprocess.call(['git', '-C', '/repo', 'checkout', '--', '.']); subprocess.call(['git', '-C', '/repo', 'clean', '-fdq'])
     meta['detected_by'] = [{"property": p, "rules": r} for p, r in sorted(det.items())]
     meta['undecided_in'] = und
     own = meta['breaks_property'] in det
